@@ -221,7 +221,6 @@ func VerifC15_IDBencode() {
 	verifReach("end")
 }
 
-func verifDecodeList(b []byte) ([]interface{}, bool)
 
 // Error.UnmarshalBencode over every decoded value shape: a list [int, string, ...] or a bare string
 // decodes; anything else is an error; nothing panics.
